@@ -23,7 +23,9 @@ def _scores(d, X):
         y = d.transform_scores(X)
     except NotImplementedError:
         d.predict(X)
-        y = d.scores
+        y = getattr(d, "scores", None)
+        if y is None:
+            return "no scores"
     a = np.asarray(y.to_numpy() if hasattr(y, "to_numpy") else y, dtype=float)
     return [float(v).hex() for v in a.reshape(-1)]
 
@@ -40,7 +42,7 @@ def series(rng, n, p, k):
     return out
 
 
-def reuse_stream(ctx, name, make, n_hist, p_choices=(1, 2), n_range=(24, 40), tuned_make=None):
+def reuse_stream(ctx, name, make, n_hist, p_choices=(1, 2), n_range=(24, 40), tuned_make=None, other_shape=True):
     """make() -> fresh detector with a built-in scorer; tuned_make() -> variant whose threshold is tuned at fit."""
     rng = ctx.rng
     for h in range(n_hist):
@@ -50,13 +52,17 @@ def reuse_stream(ctx, name, make, n_hist, p_choices=(1, 2), n_range=(24, 40), tu
         mk = tuned_make if (tuned_make is not None and h % 3 == 2) else make
         plan = [("fit", A), ("predict", A), ("scores", A), ("predict", B), ("scores", B), ("transform", B), ("fit", B), ("predict", B),
                 ("scores", A), ("predict", C), ("fit", C), ("scores", B), ("predict", A)]
+        if other_shape:
+            # a series of ANOTHER shape (rows and columns) seen in between must leave no trace either
+            Dsh = series(rng, n + rng.randint(3, 9), (p % 3) + 1, 1)[0]
+            plan += [("predict", Dsh), ("scores", Dsh), ("predict", Dsh)]
         rng.shuffle(plan)
         plan = [("fit", A)] + plan
         d = mk()
         fitted_on = None
         hist = []
         for op, X in plan[: rng.randint(5, len(plan))]:
-            tag = "A" if X is A else ("B" if X is B else "C")
+            tag = "A" if X is A else ("B" if X is B else ("C" if X is C else "D(other shape)"))
             hist.append(f"{op}({tag})")
             inp = {"detector": name, "n": n, "p": p, "history": list(hist), "A": A.to_numpy().tolist(), "B": B.to_numpy().tolist(), "C": C.to_numpy().tolist()}
             try:
